@@ -1,1 +1,12 @@
 import Ypv.Props.C11
+/-! C11 — obligations (one `#print axioms` per property theorem) -/
+#print axioms Ypv.MergeAt.mergeat_frame
+#print axioms Ypv.MergeAt.mergeat_frame_created
+#print axioms Ypv.MergeAt.mergeat_targets_merged
+#print axioms Ypv.MergeAt.mergeat_target_is_c05_merge_partial
+#print axioms Ypv.MergeAt.mergeat_meets_spec_partial
+#print axioms Ypv.MergeAt.mergeat_missing_created
+#print axioms Ypv.MergeAt.mergeat_existing_path_is_target
+#print axioms Ypv.MergeAt.mergeat_unmatched_is_error
+#print axioms Ypv.MergeAt.mergeat_uncreatable_is_error
+#print axioms Ypv.MergeAt.mergeat_null_rhs
